@@ -45,12 +45,13 @@ B_FIRST = bool(shard("b_first", 0))
 FIRST, SECOND, WHO = SCENARIOS[SCEN]
 L = tier(1, 3 if SECOND is None else 2)   # schedule length
 AT_MAX = tier(10, 14)     # the second call starts after 0..AT_MAX scheduler steps
-FIRE_MAX = tier(12, 16)
+FIRE_MAX = tier(18, 24)
 NTHREADS = 6
 
 KF_RELEASE_RACE = "C06-release-after-peer-request"
 KF_ABORT_IN_RELEASE = "C06-abort-during-release"
 KF_ABORT_TWICE = "C06-abort-after-peer-abort"
+KF_RELEASED_AND_ABORTED = "C06-released-and-aborted"
 
 
 def _run_cosim(schedule, at, fire_at):
@@ -121,6 +122,13 @@ def _classify(o):
             fixed = {n: dict(o[n], terminal=["EVT_ABORTED"]) if n in bad else o[n] for n in ("A", "B")}
             if _verdict(dict(o, A=fixed["A"], B=fixed["B"])):
                 return KF_ABORT_TWICE
+    # a release() that completed while the peer's A-ABORT indication was already queued: the association reactor, woken
+    # by kill(), still processes the indication - the side ends up released AND aborted, with both events
+    both = [n for n in ("A", "B") if o[n]["released"] and o[n]["aborted"] and o[n]["terminal"] == ["EVT_RELEASED", "EVT_ABORTED"]]
+    if both:
+        fixed = {n: dict(o[n], aborted=False, terminal=["EVT_RELEASED"]) if n in both else o[n] for n in ("A", "B")}
+        if _verdict(dict(o, A=fixed["A"], B=fixed["B"])):
+            return KF_RELEASED_AND_ABORTED
     return None
 
 
@@ -204,7 +212,7 @@ _COSIM_STUBS = ["vlib/stubs/cosim.py: pipe-pair sockets + select; Queue.get / ti
     stubs=_COSIM_STUBS,
     outside="pre-emption inside a reactor iteration / between two blocking points of a user call; association negotiation and "
             "DIMSE traffic; two user threads releasing the same association; wall-clock timing; leftover OS threads",
-    findings=[KF_RELEASE_RACE, KF_ABORT_IN_RELEASE, KF_ABORT_TWICE],
+    findings=[KF_RELEASE_RACE, KF_ABORT_IN_RELEASE, KF_ABORT_TWICE, KF_RELEASED_AND_ABORTED],
 )
 def cosim_outcomes(schedule: List[int], at: int) -> bool:
     """
@@ -230,7 +238,7 @@ LT = tier(0, 1)
            % (FIRE_MAX, AT_MAX, LT),
     stubs=_COSIM_STUBS,
     outside="as cosim_outcomes",
-    findings=[KF_RELEASE_RACE, KF_ABORT_IN_RELEASE, KF_ABORT_TWICE],
+    findings=[KF_RELEASE_RACE, KF_ABORT_IN_RELEASE, KF_ABORT_TWICE, KF_RELEASED_AND_ABORTED],
 )
 def cosim_timeout_race(schedule: List[int], at: int, fire_at: int) -> bool:
     """
